@@ -265,6 +265,7 @@ def _worker(args):
     from hypothesis import given, settings, seed as hseed, strategies as st, HealthCheck, Phase
     import hypothesis.internal.conjecture.engine as eng
     eng.MAX_SHRINKING_SECONDS = 45 if tier == 'quick' else 180
+    eng.BUFFER_SIZE = 64 * 1024        # generated programs need a few thousand draws
     import warnings
     warnings.filterwarnings('ignore', message='.*spent more than five minutes.*')
     warnings.filterwarnings('ignore', category=hypothesis.errors.HypothesisWarning)
